@@ -1,12 +1,16 @@
 """Trusted library contracts needed by the DNS properties (C25-C27).
 
-* SByteArray: a *mutable* bytearray (in-place extend / slice assignment / slice deletion, aliasing preserved), as a
-  subclass of SBytes so that every read-only bytes operation keeps working. `bytes(ba)` yields an immutable copy.
-* methods of module-level `struct.Struct` constants (`_LABEL_SIZE.unpack_from`, `Question.HEADER.pack`, ...).
-* `str.split(sep)` / `bytes.split(sep)` on a symbolic string: exact parts by IndexOf chains, forked on the number of
-  parts up to the unroll bound (paths beyond it are truncated and labelled bounded).
+* SByteArray: a *mutable* bytearray (in-place extend / append / clear / slice assignment / slice deletion, aliasing preserved),
+  a subclass of SBytes so that every read-only bytes operation keeps working. `bytes(ba)` yields an immutable copy.
+  `bytearray(...)` now constructs it (interp's "extend rebinds the name" shortcut is skipped for it).
+* methods of real `struct.Struct` objects held in module/class constants (`_LABEL_SIZE.unpack_from`, `Question.HEADER.pack`,
+  ...) with the instantiated lemma "an unsigned w-byte field read from bytes is in 0..256^w-1".
+* `str.split(sep)` / `bytes.split(sep)` on a symbolic string: structural when the string is a concatenation of literals and
+  strings declared separator-free by the scenario (`assume_sep_free`), else exact parts by IndexOf chains, forked on the
+  number of parts up to the unroll bound (paths beyond it are truncated and labelled bounded).
 * `range()` with a symbolic bound: forked on the value up to the unroll bound (labelled bounded).
-* the `idna` codec: uninterpreted functions with the axioms listed in IDNA_AXIOMS (differentially tested by props/C25 T2).
+* the `idna` codec: uninterpreted functions (IDNA_AXIOMS), with native oracles for replayable models.
+* `a | b` on two symbolic ints: a + b - (a & b) with disjoint-bit-range lemmas (sound over-approximation).
 """
 import struct as _struct
 
